@@ -13,7 +13,8 @@ RULE = ("cases = calls of expand_message_xmd / hash_to_field_FQ / hash_to_field_
         "monitor wrapped around the function against pv.model.h2c (RFC 9380 5.3.1 / 5.2 written on hashlib only); "
         "grid of message lengths x DST lengths x output lengths x hash functions x counts plus random fill; "
         "distinct = distinct (function, msg, DST, length/count, hash); non-trivial = anything but the RFC K.1 vectors' "
-        "(message, DST, length) with SHA-256")
+        "(message, DST, length) with SHA-256"
+        " A concurrent phase repeats expansions (up to 255 blocks, five tags, all hash functions) and hash_to_field calls in 4 threads and requires the single-threaded values.")
 ASSUMPTIONS = ["hashlib digest functions are correct (shared by model and library)"]
 
 
